@@ -164,15 +164,19 @@ example : approve (strBytes "org.apache.cassandra.auth.AllowAllAuthenticator") [
 example : approve (strBytes "org.apache.cassandra.auth.PasswordAuthenticator") [strBytes "com.example.Custom"] = false := by
   decide
 
-/-- A server that demands authentication from a client configured without an authenticator gets an error:
-    for every class name and whatever else the server sends, nothing beyond OPTIONS and STARTUP is written and
-    the connection is never reported ready.  More generally, without an authenticator the start-up ends `ready`
-    only on SUPPORTED followed directly by READY. -/
+/-! ## the start-up handshake, given the connection's authenticator (`Conn.auth`) -/
+
+/-- A server that demands authentication from a connection WITHOUT an authenticator gets an error:
+    for every class name and whatever else the server sends, nothing beyond OPTIONS and STARTUP is written, no
+    `Challenge`/`Success` call is made, the process does not die, and the connection is never reported ready.
+    More generally, without an authenticator the start-up ends `ready` only on SUPPORTED followed directly by READY. -/
 theorem C20_no_auth_no_session (cls : List UInt8) (rest fs : List SFrame) :
-    handshake none (.supported :: .authenticate cls :: rest) = ([.options, .startup], .errAuthRequired) ∧
-    ((handshake none fs).2 = .ready → ∃ tl, fs = .supported :: .ready :: tl) ∧
-    (∀ tok, Sent.authResponse tok ∉ (handshake none fs).1) := by
-  refine ⟨rfl, ?_, ?_⟩
+    handshake none (.supported :: .authenticate cls :: rest) =
+      { sent := [.options, .startup], calls := [], provCalls := [], outcome := .errAuthRequired } ∧
+    ((handshake none fs).outcome = .ready → ∃ tl, fs = .supported :: .ready :: tl) ∧
+    (∀ tok, Sent.authResponse tok ∉ (handshake none fs).sent) ∧
+    (handshake none fs).calls = [] ∧ (handshake none fs).outcome ≠ .crash := by
+  refine ⟨rfl, ?_, ?_, ?_, ?_⟩
   · intro h
     rcases fs with _ | ⟨f, fs⟩
     · cases h
@@ -180,7 +184,7 @@ theorem C20_no_auth_no_session (cls : List UInt8) (rest fs : List SFrame) :
       rcases fs with _ | ⟨g, gs⟩
       · cases h
       · cases g <;> first | exact ⟨_, rfl⟩ | cases h
-  · intro tok
+  all_goals
     rcases fs with _ | ⟨f, fs⟩
     · simp [handshake]
     · cases f <;> try (simp [handshake])
@@ -192,12 +196,12 @@ theorem C20_no_auth_no_session (cls : List UInt8) (rest fs : List SFrame) :
     approved class, for every frame sequence the server may send; and after an AUTHENTICATE the session becomes
     ready only through AUTH_SUCCESS. -/
 theorem C20_credentials_only_if_approved (p : PwAuth) (fs : List SFrame) :
-    (∀ tok, Sent.authResponse tok ∈ (handshake (some p) fs).1 →
+    (∀ tok, Sent.authResponse tok ∈ (handshake (some (.pw p)) fs).sent →
       ∃ cls tl, fs = .supported :: .authenticate cls :: tl ∧ approve cls p.allowed = true ∧
         tok = plainToken p.user p.pass) ∧
-    ((handshake (some p) fs).2 = .ready →
+    ((handshake (some (.pw p)) fs).outcome = .ready →
       (∃ tl, fs = .supported :: .ready :: tl) ∨
-      (∃ cls tl, fs = .supported :: .authenticate cls :: .authSuccess :: tl ∧ approve cls p.allowed = true)) := by
+      (∃ cls d tl, fs = .supported :: .authenticate cls :: .authSuccess d :: tl ∧ approve cls p.allowed = true)) := by
   constructor
   · intro tok h
     rcases fs with _ | ⟨f, fs⟩
@@ -208,9 +212,9 @@ theorem C20_credentials_only_if_approved (p : PwAuth) (fs : List SFrame) :
       · cases g <;> try (simp [afterStartup] at h)
         rename_i cls
         refine ⟨cls, gs, rfl, ?_⟩
-        simp only [challenge] at h
+        simp only [AuthImpl.challenge, challenge] at h
         by_cases ha : approve cls p.allowed = true
-        · simp [ha] at h; exact ⟨ha, h⟩
+        · simp [ha, (authLoop_none gs).1] at h; exact ⟨ha, h⟩
         · simp [ha] at h
   · intro h
     rcases fs with _ | ⟨f, fs⟩
@@ -220,19 +224,339 @@ theorem C20_credentials_only_if_approved (p : PwAuth) (fs : List SFrame) :
       · cases h
       · cases g <;> try (first | exact Or.inl ⟨_, rfl⟩ | cases h)
         rename_i cls
-        simp only [handshake, afterStartup, challenge] at h
+        simp only [handshake, afterStartup, AuthImpl.challenge, challenge, Trace.pre_outcome] at h
         by_cases ha : approve cls p.allowed = true
-        · simp only [ha, if_true] at h
+        · simp only [ha, if_true, Trace.pre_outcome] at h
           rcases gs with _ | ⟨k, ks⟩
           · cases h
-          · cases k <;> first | exact Or.inr ⟨cls, ks, rfl, ha⟩ | cases h
+          · cases k <;> first | exact Or.inr ⟨cls, _, ks, rfl, ha⟩ | cases h
         · simp [ha] at h
 
 /-- non-vacuity: an approved class gets the token, an unapproved one gets nothing -/
-example : handshake (some ⟨[117], [112], []⟩)
-    [.supported, .authenticate (strBytes "org.apache.cassandra.auth.PasswordAuthenticator"), .authSuccess] =
-    ([.options, .startup, .authResponse [0, 117, 0, 112]], .ready) := by decide
-example : handshake (some ⟨[117], [112], []⟩) [.supported, .authenticate (strBytes "com.evil.Harvester"), .authSuccess] =
-    ([.options, .startup], .errUnapproved) := by decide
+example : handshake (some (.pw ⟨[117], [112], []⟩))
+    [.supported, .authenticate (strBytes "org.apache.cassandra.auth.PasswordAuthenticator"), .authSuccess []] =
+    { sent := [.options, .startup, .authResponse [0, 117, 0, 112]], calls := [.challenge (strBytes "org.apache.cassandra.auth.PasswordAuthenticator")],
+      provCalls := [], outcome := .ready } := by decide
+example : (handshake (some (.pw ⟨[117], [112], []⟩)) [.supported, .authenticate (strBytes "com.evil.Harvester"), .authSuccess []]).sent =
+    [.options, .startup] := by decide
+
+/-- "never an unauthenticated session", for EVERY authenticator (gocql's or the caller's): once the server has demanded
+    authentication, the connection is reported ready only after an AUTH_RESPONSE was sent and the server answered
+    AUTH_SUCCESS. -/
+theorem C20_ready_only_after_success (auth : Option AuthImpl) (cls : List UInt8) (rest : List SFrame)
+    (h : (handshake auth (.supported :: .authenticate cls :: rest)).outcome = .ready) :
+    (∃ tok, Sent.authResponse tok ∈ (handshake auth (.supported :: .authenticate cls :: rest)).sent) ∧
+    (∃ d, SFrame.authSuccess d ∈ rest) := by
+  rcases auth with _ | a
+  · cases h
+  · simp only [handshake, afterStartup, Trace.pre_outcome] at h ⊢
+    cases hc : a.challenge cls with
+    | error e =>
+      rw [hc] at h; simp at h; subst h
+      rcases challenge_error a cls _ hc with e | e <;> cases e
+    | ok r =>
+      obtain ⟨resp, next⟩ := r
+      rw [hc] at h
+      exact ⟨⟨resp, by simp⟩, authLoop_ready next rest (by simpa using h)⟩
+
+/-- What a caller-supplied authenticator sends: exactly the tokens its successive `Challenge` calls returned, in
+    order (a prefix of the script), nothing else — for every server frame sequence. -/
+theorem C20_custom_tokens_in_order (rs : List Round) (sf : Bool) (fs : List SFrame) :
+    tokens (handshake (some (.custom rs sf)) fs).sent <+: rs.map (·.resp) := by
+  rcases fs with _ | ⟨f, fs⟩
+  · exact List.nil_prefix
+  · cases f <;> try exact List.nil_prefix
+    rcases fs with _ | ⟨g, gs⟩
+    · exact List.nil_prefix
+    · cases g <;> try exact List.nil_prefix
+      rename_i cls
+      rcases rs with _ | ⟨r, rs⟩
+      · exact List.nil_prefix
+      · simp only [handshake, afterStartup, AuthImpl.challenge]
+        by_cases hf : r.fail = true
+        · simp [hf]
+        · simp only [hf, Bool.false_eq_true, if_false]
+          by_cases hl : r.last = true
+          · simp [hl, (authLoop_none gs).1]
+          · simp only [hl, Bool.false_eq_true, if_false, Trace.pre_sent, List.cons_append, List.nil_append,
+              tokens_options, tokens_startup, tokens_resp, List.map_cons]
+            exact List.prefix_cons_inj r.resp |>.mpr (authLoop_custom_tokens rs sf gs)
+
+/-- `Challenge` is called with what the server sent and nothing else: first the class name of the AUTHENTICATE frame,
+    then the payloads of the AUTH_CHALLENGE frames that follow, in order — for every authenticator. -/
+theorem C20_challenge_requests (a : AuthImpl) (cls : List UInt8) (rest : List SFrame) :
+    challengeReqs (handshake (some a) (.supported :: .authenticate cls :: rest)).calls <+: cls :: leadingChallenges rest := by
+  simp only [handshake, afterStartup]
+  cases a.challenge cls with
+  | error e => simp
+  | ok r =>
+    obtain ⟨resp, next⟩ := r
+    simpa [List.prefix_cons_inj] using authLoop_reqs next rest
+
+/-- An authenticator's verdict on the server's final data is honoured: if its `Success` fails, the connection is
+    reported ready only when `Success` was never called (its chain had ended by returning a nil challenger). -/
+theorem C20_success_error_fails (rs : List Round) (fs : List SFrame)
+    (h : (handshake (some (.custom rs true)) fs).outcome = .ready) :
+    ∀ d, Call.success d ∉ (handshake (some (.custom rs true)) fs).calls := by
+  rcases fs with _ | ⟨f, fs⟩
+  · cases h
+  · cases f <;> try (cases h)
+    rcases fs with _ | ⟨g, gs⟩
+    · cases h
+    · cases g <;> try (first | (intro d; simp [handshake, afterStartup]; done) | cases h)
+      rename_i cls
+      rcases rs with _ | ⟨r, rs⟩
+      · simp [handshake, afterStartup, AuthImpl.challenge] at h
+      · simp only [handshake, afterStartup, AuthImpl.challenge] at h ⊢
+        by_cases hf : r.fail = true
+        · simp [hf] at h
+        · simp only [hf, Bool.false_eq_true, if_false, Trace.pre_outcome] at h
+          simp only [hf, Bool.false_eq_true, if_false, Trace.pre_calls]
+          intro d hm
+          simp only [List.cons_append, List.nil_append, List.mem_cons, reduceCtorEq, false_or] at hm
+          refine authLoop_success_fails _ gs ?_ h d hm
+          intro a ha
+          by_cases hl : r.last = true
+          · simp [hl] at ha
+          · simp only [hl, Bool.false_eq_true, if_false, Option.some.injEq] at ha
+            exact ⟨rs, ha.symm⟩
+
+/-! ## process death (C05's subject; modelled here because the handshake model must say what the code does) -/
+
+/-- FULL STATEMENT (false for the unchanged code): "no frame sequence makes the start-up kill the process".
+    `PasswordAuthenticator.Challenge` returns a nil next-challenger and `authenticateHandshake` calls
+    `challenger.Challenge` on it when the server answers the AUTH_RESPONSE with an AUTH_CHALLENGE (any caller-supplied
+    authenticator that returns a nil challenger has the same effect).
+    Proved part: without an AUTH_CHALLENGE frame from the server the start-up never dies — whatever the authenticator;
+    and without an authenticator it never dies at all (`C20_no_auth_no_session`). -/
+theorem C20_no_crash_partial (auth : Option AuthImpl) (fs : List SFrame) (h : ∀ d, SFrame.authChallenge d ∉ fs) :
+    (handshake auth fs).outcome ≠ .crash := by
+  intro hc
+  rcases fs with _ | ⟨f, fs⟩
+  · cases hc
+  · cases f <;> try (cases hc)
+    rcases fs with _ | ⟨g, gs⟩
+    · cases hc
+    · cases g <;> try (cases hc)
+      rename_i cls
+      rcases auth with _ | a
+      · cases hc
+      · simp only [handshake, afterStartup, Trace.pre_outcome] at hc
+        cases hch : a.challenge cls with
+        | error e =>
+          rw [hch] at hc; simp at hc; subst hc
+          rcases challenge_error a cls _ hch with e | e <;> cases e
+        | ok r =>
+          obtain ⟨resp, next⟩ := r
+          rw [hch] at hc
+          obtain ⟨d, hd⟩ := authLoop_crash next gs (by simpa using hc)
+          exact h d (by simp [hd])
+
+/-- for gocql's own PasswordAuthenticator the fatal inputs are exactly: SUPPORTED, AUTHENTICATE(approved class),
+    AUTH_CHALLENGE -/
+theorem C20_pw_crash_iff (p : PwAuth) (fs : List SFrame) :
+    (handshake (some (.pw p)) fs).outcome = .crash ↔
+      ∃ cls d tl, fs = .supported :: .authenticate cls :: .authChallenge d :: tl ∧ approve cls p.allowed = true := by
+  constructor
+  · intro h
+    rcases fs with _ | ⟨f, fs⟩
+    · cases h
+    · cases f <;> try (cases h)
+      rcases fs with _ | ⟨g, gs⟩
+      · cases h
+      · cases g <;> try (cases h)
+        rename_i cls
+        simp only [handshake, afterStartup, AuthImpl.challenge, challenge, Trace.pre_outcome] at h
+        by_cases ha : approve cls p.allowed = true
+        · simp only [ha, if_true, Trace.pre_outcome] at h
+          rcases gs with _ | ⟨k, ks⟩
+          · cases h
+          · cases k <;> first | exact ⟨cls, _, ks, rfl, ha⟩ | cases h
+        · simp [ha] at h
+  · rintro ⟨cls, d, tl, rfl, ha⟩
+    simp [handshake, afterStartup, AuthImpl.challenge, challenge, ha, authLoop]
+
+/-- counterexample to the full statement (replayed on the real code in a child process by the op
+    `hs pw:75:70:none sup auth:<PasswordAuthenticator> chal` → `crash:authenticateHandshake …`) -/
+theorem C20_cex_nil_challenger :
+    (handshake (some (.pw ⟨[117], [112], []⟩))
+      [.supported, .authenticate (strBytes "org.apache.cassandra.auth.PasswordAuthenticator"), .authChallenge [0x78]]).outcome
+      = .crash := by decide
+
+/-! ## which authenticator a connection gets: Authenticator, AuthProvider, per host -/
+
+/-- `Conn.init`: with an AuthProvider configured, it is asked exactly once, for the host being dialled, and its answer
+    alone decides (the static Authenticator is not consulted; its error ends the attempt before a single byte is
+    written); without one the static Authenticator is used and no provider is called.  In terms of the documented
+    roles (`Spec.credentials`): the connection behaves as the start-up with exactly those credentials. -/
+theorem C20_auth_resolution (cfg : AuthCfg) (host : Nat) (fs : List SFrame) :
+    (∀ a, Spec.credentials cfg host = some a →
+      (connect cfg host fs).sent = (handshake a fs).sent ∧ (connect cfg host fs).calls = (handshake a fs).calls ∧
+      (connect cfg host fs).outcome = (handshake a fs).outcome) ∧
+    (Spec.credentials cfg host = none →
+      (connect cfg host fs).sent = [] ∧ (connect cfg host fs).calls = [] ∧ (connect cfg host fs).outcome = .errProvider) ∧
+    (connect cfg host fs).provCalls = (if cfg.provider.isSome then [host] else []) := by
+  obtain ⟨st, pv⟩ := cfg
+  rcases pv with _ | f
+  · refine ⟨?_, ?_, ?_⟩
+    · intro a h; simp only [Spec.credentials] at h; cases h; exact ⟨rfl, rfl, rfl⟩
+    · intro h; cases h
+    · simp only [connect, Option.isSome_none, Bool.false_eq_true, if_false]
+      rcases fs with _ | ⟨f, fs⟩
+      · rfl
+      · cases f <;> try rfl
+        simp only [handshake, Trace.pre_provCalls]
+        rcases fs with _ | ⟨g, gs⟩
+        · rfl
+        · cases g <;> try rfl
+          rcases st with _ | a
+          · rfl
+          · simp only [afterStartup]
+            cases a.challenge _ with
+            | error e => rfl
+            | ok r => obtain ⟨resp, next⟩ := r; simp [authLoop_provCalls]
+  · refine ⟨?_, ?_, ?_⟩
+    · intro a h
+      simp only [Spec.credentials] at h
+      simp only [connect]
+      cases hf : f host with
+      | auth b => rw [hf] at h; cases h; exact ⟨rfl, rfl, rfl⟩
+      | err b => rw [hf] at h; cases h
+    · intro h
+      simp only [Spec.credentials] at h
+      simp only [connect]
+      cases hf : f host with
+      | auth b => rw [hf] at h; cases h
+      | err b => exact ⟨rfl, rfl, rfl⟩
+    · simp only [connect, Option.isSome_some, if_true]
+      cases f host <;> rfl
+
+/-- THE CLAUSE OF THE PROPERTY: "a server that demands authentication from a client configured without credentials
+    gets an error, never an unauthenticated session" — for every configuration that has no credentials for the host
+    being dialled (nothing configured at all, OR an AuthProvider that hands out no authenticator for this host,
+    whatever it hands out for other hosts), every class name and every server frame sequence:
+    no AUTH_RESPONSE is ever written, no Challenge/Success call is made (there is nothing to call them on), the
+    process does not die, AUTHENTICATE is answered by the error "authentication required" after exactly OPTIONS and
+    STARTUP, and `ready` is reached only through SUPPORTED, READY. -/
+theorem C20_no_credentials_no_session (cfg : AuthCfg) (host : Nat) (fs : List SFrame)
+    (h : Spec.credentials cfg host = some none) :
+    (∀ tok, Sent.authResponse tok ∉ (connect cfg host fs).sent) ∧
+    (connect cfg host fs).calls = [] ∧
+    (connect cfg host fs).outcome ≠ .crash ∧
+    ((connect cfg host fs).outcome = .ready → ∃ tl, fs = .supported :: .ready :: tl) ∧
+    (∀ cls rest, fs = .supported :: .authenticate cls :: rest →
+      (connect cfg host fs).sent = [.options, .startup] ∧ (connect cfg host fs).outcome = .errAuthRequired) := by
+  obtain ⟨hs, hc, ho⟩ := (C20_auth_resolution cfg host fs).1 none h
+  obtain ⟨-, hr, hn, hcl, hcr⟩ := C20_no_auth_no_session [] [] fs
+  rw [hs, hc, ho]
+  refine ⟨hn, hcl, hcr, hr, ?_⟩
+  rintro cls rest rfl
+  exact ⟨rfl, rfl⟩
+
+/-- Per-host credential disclosure, for every configuration, host and frame sequence: an AUTH_RESPONSE leaves the
+    client only if the configuration has credentials for THIS host (`Spec.credentials`), and if those are password
+    credentials, only as their PLAIN token in reply to an AUTHENTICATE naming a class approved by THAT authenticator's
+    list.  A provider error means nothing at all is sent. -/
+theorem C20_credentials_per_host (cfg : AuthCfg) (host : Nat) (fs : List SFrame) (tok : List UInt8)
+    (h : Sent.authResponse tok ∈ (connect cfg host fs).sent) :
+    ∃ a, Spec.credentials cfg host = some (some a) ∧
+      (∀ p, a = .pw p → ∃ cls tl, fs = .supported :: .authenticate cls :: tl ∧ approve cls p.allowed = true ∧
+        tok = plainToken p.user p.pass) ∧
+      (∀ rs sf, a = .custom rs sf → tok ∈ rs.map (·.resp)) := by
+  cases hc : Spec.credentials cfg host with
+  | none => rw [((C20_auth_resolution cfg host fs).2.1 hc).1] at h; cases h
+  | some oa =>
+    rw [((C20_auth_resolution cfg host fs).1 oa hc).1] at h
+    rcases oa with _ | a
+    · exact absurd h ((C20_no_auth_no_session [] [] fs).2.2.1 tok)
+    · refine ⟨a, rfl, ?_, ?_⟩
+      · rintro p rfl; exact (C20_credentials_only_if_approved p fs).1 tok h
+      · rintro rs sf rfl
+        exact (C20_custom_tokens_in_order rs sf fs).subset ((mem_tokens _ _).mpr h)
+
+/-! ## "only after TLS verification as configured" -/
+
+/-- End to end, for every SslOptions (that yield a config), host name, port, server certificate, authenticator and
+    server frame sequence: the TLS handshake is accepted exactly when the documented table says "do not verify" or
+    the certificate is signed by a CA the client was given (CaPath file, own RootCAs) and is valid for the expected name (the caller's ServerName, else the
+    host being dialled); when it is not accepted NOTHING is sent on the connection (no OPTIONS, no credentials) and
+    the dial fails; hence an AUTH_RESPONSE leaves the client only after verification as configured.
+    (crypto/tls itself is assumed: `tlsAccepts`.) -/
+theorem C20_credentials_only_after_verification (o : SslOpts) (hostname port : List UInt8) (cert : ServerCert)
+    (auth : Option AuthImpl) (fs : List SFrame) (t : TlsDial) (hp : colon ∉ port)
+    (h : dialTLS o hostname port cert auth fs = .ok t) :
+    t.accepted = Spec.mayProceed o hostname cert ∧
+    (t.accepted = false → t.trace.sent = [] ∧ t.trace.calls = [] ∧ t.trace.outcome = .errTlsVerify) ∧
+    (t.accepted = true → t.trace = handshake auth fs) ∧
+    (∀ tok, Sent.authResponse tok ∈ t.trace.sent → Spec.mayProceed o hostname cert = true) := by
+  have key : t.accepted = Spec.mayProceed o hostname cert ∧
+      (t.accepted = false → t.trace = .stop .errTlsVerify) ∧ (t.accepted = true → t.trace = handshake auth fs) := by
+    simp only [dialTLS] at h
+    cases hs : setupTLSConfig o with
+    | error e => rw [hs] at h; cases h
+    | ok c =>
+      rw [hs] at h
+      obtain ⟨h1, h2, h3⟩ := C20_setup_follows_table o c hs
+      have hmv : Spec.mustVerify o = !c.insecure := by simp [Spec.mustVerify, h1]
+      have hname : c.insecure = false →
+          (tlsConfigForAddr c.insecure c.serverName (joinHostPort hostname port)).1 = Spec.expectedName o hostname := by
+        intro hi
+        simp only [Spec.expectedName, ← h2]
+        by_cases he : c.serverName = []
+        · rw [(C20_server_name c.insecure c.serverName _).1 hi he, he]
+          simp [C20_server_name_of_host hostname port hp]
+        · rw [(C20_server_name c.insecure c.serverName _).2 (Or.inr he)]
+          simp [he]
+      have hacc : tlsAccepts c.insecure (rootsTrust o cert.signer)
+          (tlsConfigForAddr c.insecure c.serverName (joinHostPort hostname port)).1 cert = Spec.mayProceed o hostname cert := by
+        simp only [tlsAccepts, Spec.mayProceed, hmv, Bool.not_not]
+        cases hi : c.insecure
+        · have := hname hi
+          rw [hi] at this
+          simp [this]
+        · simp
+      simp only [] at h
+      rw [hacc] at h
+      by_cases hm : Spec.mayProceed o hostname cert = true
+      · simp only [hm, if_true] at h; cases h; exact ⟨hm.symm, by simp, fun _ => rfl⟩
+      · simp only [hm] at h; cases h
+        exact ⟨by simpa using hm, fun _ => rfl, by simp⟩
+  obtain ⟨k1, k2, k3⟩ := key
+  refine ⟨k1, ?_, k3, ?_⟩
+  · intro hf; rw [k2 hf]; exact ⟨rfl, rfl, rfl⟩
+  · intro tok hm
+    cases ha : t.accepted
+    · rw [k2 ha] at hm; cases hm
+    · rw [← k1, ha]
+
+/-- non-vacuity: host verification on, CA given; the node presents a certificate for another name → rejected, nothing
+    sent; the right certificate → the password token goes out -/
+example : (dialTLS ⟨none, true, .valid, .absent, .absent⟩ (strBytes "node-b") (strBytes "9042")
+    ⟨[strBytes "node-a"], .fileCA⟩ (some (.pw ⟨[117], [112], []⟩))
+    [.supported, .authenticate (strBytes "org.apache.cassandra.auth.PasswordAuthenticator"), .authSuccess []]).toOption =
+    some ⟨strBytes "node-b", false, .stop .errTlsVerify⟩ := by decide
+example : (dialTLS ⟨none, true, .valid, .absent, .absent⟩ (strBytes "node-b") (strBytes "9042")
+    ⟨[strBytes "node-b"], .fileCA⟩ (some (.pw ⟨[117], [112], []⟩))
+    [.supported, .authenticate (strBytes "org.apache.cassandra.auth.PasswordAuthenticator"), .authSuccess []]).toOption.map
+      (·.trace.sent) = some [.options, .startup, .authResponse [0, 117, 0, 112]] := by decide
+
+/-- `NewSession` refuses a configuration with both an Authenticator and an AuthProvider before dialling anything;
+    every other configuration dials and connects as above. -/
+theorem C20_session_config (cfg : AuthCfg) (host : Nat) (fs : List SFrame) :
+    (cfg.static.isSome = true → cfg.provider.isSome = true → newSession cfg host fs = (.stop .errBoth, 0)) ∧
+    ((cfg.static = none ∨ cfg.provider.isNone = true) → newSession cfg host fs = (connect cfg host fs, 1)) := by
+  obtain ⟨st, pv⟩ := cfg
+  constructor
+  · intro h1 h2; simp only at h1 h2; simp [newSession, h1, h2]
+  · rintro (h | h) <;> simp only at h <;> simp_all [newSession]
+
+/-- non-vacuity / the seeded family: a provider with credentials for host 7 only, host 1 dialled, server demands
+    authentication → error after OPTIONS, STARTUP; host 7 gets the token -/
+example : connect ⟨none, some (fun h => if h = 7 then .auth (some (.pw ⟨[117], [112], []⟩)) else .auth none)⟩ 1
+    [.supported, .authenticate (strBytes "org.apache.cassandra.auth.PasswordAuthenticator"), .authSuccess []] =
+    { sent := [.options, .startup], calls := [], provCalls := [1], outcome := .errAuthRequired } := by decide
+example : (connect ⟨none, some (fun h => if h = 7 then .auth (some (.pw ⟨[117], [112], []⟩)) else .auth none)⟩ 7
+    [.supported, .authenticate (strBytes "org.apache.cassandra.auth.PasswordAuthenticator"), .authSuccess []]).sent =
+    [.options, .startup, .authResponse [0, 117, 0, 112]] := by decide
 
 end C20
